@@ -119,6 +119,7 @@ func (c *syncMap) ExpireAll(ctx context.Context) {
 		return true
 	})
 
+	c.t.expirationsAdded(cnt)
 	c.t.NotifyExpiredAll(ctx, start, cnt)
 }
 
@@ -220,6 +221,10 @@ func (c *SyncMap) Restore(r io.Reader) (int, error) {
 		}
 
 		c.data.Store(string(e.K), &e)
+
+		if e.E != 0 {
+			c.t.expirationsAdded(1)
+		}
 
 		n++
 	}
